@@ -618,6 +618,10 @@ func (ss *SegStore) backFillPastRecords(key string, ssType SS_DTYPE, recNum uint
 	}
 
 	packedLen += uint32(recNum)
+	if recNum > 0 {
+		// the backfilled records are 1 byte long, the column no longer has one record length
+		ss.updateColValueSizeInAllSeenColumns(key, 1)
+	}
 
 	// we will also init dictEnc for backfilled recnums
 
